@@ -385,6 +385,11 @@ class OpenAPISchemaResolver(SchemaTypeResolver):
         # the whole annotation is quoted ("List[Node]"), because a ForwardRef nested inside a generic
         # (List["Node"]) is not resolved by cattrs when the value is structured.
         item_type_str = item_type.python_type
+        # Items declared nullable ("items": {"type": "string", "nullable": true}) may be null inside the list
+        if getattr(items_schema, "is_nullable", False) and not item_type_str.endswith("| None"):
+            if item_type.is_forward_ref:
+                item_type_str = item_type_str.strip('"')
+            item_type_str = f"{item_type_str} | None"
         if item_type.is_forward_ref:
             unquoted_item = item_type_str.strip('"')
             return ResolvedType(python_type=f"List[{unquoted_item}]", is_optional=not required, is_forward_ref=True)
